@@ -14,6 +14,12 @@ add("C05", MC, "vsched", "stateless model checking of the real code under a cont
 add("C07", MC, "vsched", "stateless model checking of the real code under a controlled scheduler: all interleavings up to a preemption bound (iterative context bounding + happens-before fingerprint pruning)",
     "Every interleaving (preemption bound 3 quick / 5 thorough, completed bound reported per scenario) of 2-4 threads issuing 1-2 SingleFlight.Do/DoEx, LockedCalls.Do and ResourceManager.GetResource calls on colliding keys, executed on go-zero's own core/syncx sources rewritten onto the scheduler shim; an interval checker over the totally ordered call/exec log decides per-key exclusion, no-stale-result, fresh-flag, exactly-once and single-creation.",
     "Bounded to the listed thread/call counts and preemption bound; sequential consistency; the shim's model of sync.Mutex/RWMutex/WaitGroup (see DESIGN 2.3, 2.9).", "DESIGN.md#c07")
+add("C06", MC, "seqx+vsched", "explicit-state breadth-first search over read/write/expire/fault histories against miniredis + a map-backed database, plus stateless model checking of concurrent readers under a controlled scheduler",
+    "Histories up to depth 6 (8 thorough) over 2 rows, primary and index cache keys, reads via Take/QueryRow/QueryRowIndex/GetCache, writes and deletes through Exec, explicit cache sets, clock advances around the TTLs, database errors, cache outages and the three jitter answers, on cache.NewNode / sqlc.NewNodeConn and on a two-node cache cluster (real go-zero code, real redis client, miniredis); oracles: read == database content, 0 queries on a live entry else exactly 1, database errors never cached, cache-store errors reported without querying, every key carries a finite TTL inside the +/-5% bracket rounded up. Schedules: every interleaving (P<=2 quick, 3 thorough) of three concurrent Take/QueryRow readers of uncached keys with a scheduling point before every redis call: at most one query in flight per key, every reader gets a result of an overlapping flight or the cached value.",
+    "miniredis stands in for Redis (TTLs move with FastForward); the redis client's breaker is replaced by a no-op and ResourceManager kept on real primitives so that a redis call is one atomic step; coherence is not demanded for a key whose invalidation hit an outage.", "DESIGN.md#c06")
+add("C08", EX, "enumx", "bounded-exhaustive enumeration of a struct-type family x input family against an independent constraint evaluator",
+    "15.9M (430M thorough) evaluations: every 1-2 field (3 in thorough) struct type over 11 field kinds x optional / optional=dep / optional=!dep / default / range (all bracket forms) / options / string under json, form, path and header keys x per-field inputs (absent, null, range boundaries and neighbours, options and non-options, wrong types, numeric strings, fractions) through UnmarshalJsonBytes, UnmarshalKey, the form/path/header unmarshalers, httpx.Parse and conf.LoadFromJsonBytes; oracles: soundness (accepted => constraints hold and the target holds exactly supplied values / defaults), completeness (valid well-typed input accepted), totality (no panic).",
+    "Exhaustive within the stated family; null and non-canonical convertible renderings are bracketed (either verdict accepted); YAML/TOML renderings are C17's business.", "DESIGN.md#c08")
 add("C10", MC, "vsched", "stateless model checking of the real code under a controlled scheduler: all interleavings x fault placements up to a preemption bound and a timer-deviation bound (iterative context bounding + happens-before fingerprint pruning)",
     "Every interleaving (P<=1,T<=1 quick; P<=2 thorough; completed bounds per scenario in the evidence) of ~110 small MapReduce instances (0-3 items, 1-2 workers, fan-out 0-2; MapReduce, MapReduceVoid, MapReduceChan, ForEach, Finish, FinishVoid) crossed with single faults and fault pairs (generator/mapper/reducer panic, cancel(err), cancel(nil), stalled mapper, early or missing reducer output, context deadline on the virtual clock, cancellation by another thread), run on go-zero's own core/mr rewritten onto the scheduler shim. Oracles from the statement: exactly-once mapping and complete reduction when nothing is cancelled, worker cap, justified error or re-raised user panic otherwise, no caller deadlock, no thread of the call alive after the user functions returned, never a runtime panic. Three genuine defect classes of the shutdown protocol are listed in known_findings.txt.",
     "Bounded to the listed instance sizes, fault menus and deviation bounds; sequential consistency; the shim's model of channels/select/sync/context (DESIGN 2.3, 2.9).", "DESIGN.md#c10")
@@ -24,6 +30,15 @@ add("C12", MC, "seqx+vsched", "explicit-state breadth-first search over operatio
     "All histories up to depth 6 (9 thorough) of SetTimer/MoveTimer/RemoveTimer/tick/Drain over 2 keys and delays of 1..2n+1 intervals on wheels of 1-4 (1-10 thorough) slots; in every reached state the set of timers fired by a tick (and delivered by Drain) must equal the reference's due set; states deduplicated by a white-box dump of the whole wheel.",
     "Internal goroutines of the wheel run under the default schedule to quiescence after each operation (their interleavings are not explored); delays are multiples (and one half-multiple) of the interval.", "DESIGN.md#c12")
 
+add("C15", MC, "seqx", "explicit-state breadth-first search over Add/AddWithReplicas/AddWithWeight/Remove histories of the real ring with differential and transition oracles",
+    "All histories up to depth 3-5 (6 thorough) over 6 node tables (strings, ints, Stringers colliding by representation, nodes whose virtual-node labels coincide, replica caps, a deliberately colliding custom hash), ~570 probe keys per state: Get returns a current member (none iff no member owns a virtual node), probe results equal those of a fresh ring built from the reference membership (history independence), and across every transition only keys moving to the added / from the removed / to-or-from the re-weighted node change owner. Most state spaces close (complete for unbounded histories).",
+    "Default hash unless stated; weight 0 (member without virtual nodes) treated as outside the documented 1..100 range.", "DESIGN.md#c15")
+add("C16", MC, "seqx+vsched", "explicit-state breadth-first search per collection type against slice/map reference models; the Cache is driven through the controlled scheduler in sequential-driver mode on a virtual clock",
+    "RollingWindow (sizes 1-4, ignore-current on/off, jumps on/before/after bucket boundaries on the fake clock, depth 8/10), collection.Cache (limits 0-3, Set/SetWithExpire/Get/Del/Take with ok and failing loader, virtual ticks around the expiry, both jitter extremes, depth 5-7), SafeMap (real thresholds crossed by churn macro operations and thresholds scaled to 4/2 by the rewriter, depth 12/15), Queue (wrap-around and growth), Ring, Set; white-box dump + reference as state key; oracles: Reduce visits exactly the last size intervals, Cache returns the latest value unless deleted/expired/evicted, never exceeds the limit, evicts least-recently-used, loader only on a miss, expiry inside the jitter bracket; SafeMap/Queue/Ring/Set equal map/FIFO/last-n/set.",
+    "Cache goroutines run to quiescence under the default schedule after each operation; expiries beyond one wheel revolution are C12's business.", "DESIGN.md#c16")
+add("C18", EX, "enumx+seqx", "exhaustive enumeration of single-field mutations of valid credentials against independent verifiers, plus explicit-state search over the secret-rotation state",
+    "262k (5.4M thorough) requests: 4608 valid JWT bases (3 algs, 2 secrets, claim sets, exp/nbf/iat around now) x every alg/header substitution, signature candidate, re-signing with wrong/previous/confusion keys, payload edit, segment shape, base64 corruption, Authorization shape, every bit flip / truncation (thorough: every signature character); request sequences driving TokenParser's history to depth 6/8; 192/480 signed content-security requests x single mutations of timestamp (around the tolerance), method, path, query, every body bit, signature character, fingerprint, ciphertext byte, content type, missing attributes; cryption round trips for payload lengths 0-64 and block boundaries x 3 key sizes. Oracles use only the standard library: handler ran iff the HMAC verifies under the current or previous secret and time claims hold (else 401), context carries exactly the non-standard claims; handler ran iff the recomputed signature over timestamp/method/path/query/body digest matches within tolerance; plaintext in, encrypted response out. Seven genuine defect classes are listed in known_findings.txt.",
+    "Complete only over the enumerated mutation space (no claim of unforgeability); iat-in-the-future and non-canonical Authorization shapes are not pinned either way.", "DESIGN.md#c18")
 add("C13", MC, "seqx", "explicit-state breadth-first search over registry-event histories, every transition executed on the real container / registry / kube handler / resolver code, compared with a reference registry",
     "All histories up to depth 6 (8 thorough) of put / update-to-new-value / delete watch events, two-event responses, disconnect, offline changes and reload snapshots (every delivery order of the map-ordered add/remove runs), late Monitor, over 3 keys x 2 values, on the real subscriber container (plain and exclusive), the real registry cluster.handleWatchEvents/load/handleChanges with real containers as listeners, the kube EventHandler (one Endpoints object, 8 address sets, before/after informer start) and the gRPC resolver glue incl. subset(32); in every reached state Values() (as a set) must equal the reference registrations, listeners must have been notified, the registry copy must equal the reference, the last published address list must equal the current one. Three genuine defect classes (exclusive mode after reload, kube initial add) are listed in known_findings.txt.",
     "No goroutines or network: events are fed through the unexported handlers by white-box files; states violating a listed finding are not expanded further.", "DESIGN.md#c13")
